@@ -26,6 +26,7 @@ var (
 	flagTier   = flag.String("tier", "quick", "quick|thorough")
 	flagOut    = flag.String("out", "", "part result file")
 	flagReplay = flag.String("replay", "", "replay file")
+	flagOnly   = flag.String("only", "", "scenario filter of mc parts; accepted and ignored by enumeration parts so that one command line serves every part")
 	flagBudget = flag.Duration("budget", 0, "wall-clock budget; when exceeded the part stops, reports exhaustive=false and exits 0")
 )
 
@@ -149,6 +150,7 @@ type ReplayCase struct {
 // non-nil the part is asked to re-run exactly that case and must call
 // r.Violation again if it still fails.
 func Main(t *testing.T, property, part string, run func(r *Run, replay *ReplayCase)) {
+	_ = *flagOnly
 	r := &Run{Tier: *flagTier, Property: property, Part: part, start: time.Now(), findingKeys: map[string]int{}, extra: map[string]any{}}
 	if *flagBudget > 0 {
 		r.deadline = r.start.Add(*flagBudget)
